@@ -42,7 +42,11 @@ def main():
                     alarms.append({"prop": p, "rc": rc, "line": (viol or [out[-300:]])[0]})
         finally:
             restore()
-        res[i] = {"status": "alarm" if alarms else "quiet", "files": files, "checked": ran, "alarms": alarms}
+        status = "alarm" if alarms else "quiet"
+        if os.path.exists(f"/verif/harmless/{i}/NOT-HARMLESS.txt"):
+            # a patch that turned out to break the property after all (see the note in its directory): the alarm is right
+            status = "alarm-expected" if alarms else "quiet-but-alarm-expected"
+        res[i] = {"status": status, "files": files, "checked": ran, "alarms": alarms}
         print(i, res[i]["status"], ran, [a["line"][:200] for a in alarms], flush=True)
         json.dump(res, open(resf, "w"), indent=1, sort_keys=True)
 if __name__ == "__main__":
